@@ -1,6 +1,7 @@
 import Sqfs.Model.Obj
 import Sqfs.Model.C19Readers
 import Sqfs.Model.RbTree
+import Sqfs.Model.C19Pool
 /-!
 Witnesses: the copy hooks of the pinned tree (`descCurrent`) violate C19.  Each statement is about the model
 of the *current* code, is decided by evaluation, and is replayed on the real code by `tools/checks/c19.py`
@@ -34,6 +35,31 @@ def d6DataHeap : Heap × Option Nat :=
 
 theorem d6_drop_of_copied_data_reader_calls_null :
     (match d6DataHeap with | (h, some c) => (drop 4 h c).crash | _ => none) = some .nullHook := by decide
+/-! ### default configuration (pool allocator): `rbtree_copy` leaks the fresh pool when `copy_node` fails
+
+`rbtree_copy` (rbtree.c:205-227) creates `out->pool = mem_pool_create(...)` and then calls `copy_node`; in the pool
+configuration `copy_node` fails exactly when `mem_pool_allocate` cannot `mmap` a block.  The failure branch is
+`memset(out, 0, sizeof(*out)); return SQFS_ERROR_ALLOC;` — the only pointer to the fresh pool is overwritten, the pool (its
+`mem_pool_t` and every block it already mapped) is never destroyed.  `dir_reader_copy` / `xattr_writer_copy` then `free(copy)`
+and `sqfs_copy` returns NULL with one more live pool than before: the clause "a failed copy leaves nothing behind"
+(`copy_fail_restores`) is false of /repo's default configuration.  Replayed on the real code: `failcopy 2` of an `rbt` unit /
+of a directory reader with cached inodes / of an xattr writer with recorded blocks in the pool build (LeakSanitizer); repair
+`fixes/C19-rbtree-copy-pool-leak.patch` (`mem_pool_destroy(out->pool)` before the `memset`). -/
+
+open Sqfs.Rb in
+/-- the failure branch as it is: the fresh pool stays -/
+def rbCopyFailCurrent (ps : PStore) : PStore := ps.createPool.1
+
+open Sqfs.Rb in
+/-- the failure branch with the repair: `mem_pool_destroy(out->pool)` first -/
+def rbCopyFailFixed (ps : PStore) : PStore := ps.createPool.1.destroyPool ps.createPool.2
+
+open Sqfs.Rb in
+/-- a failed `rbtree_copy` leaves a live pool that no tree refers to (for every store; concretely: none before, pool 0 after) -/
+theorem failed_pool_copy_leaks_pool :
+    (∀ ps : PStore, (rbCopyFailCurrent ps).live = ps.nextPool :: ps.live) ∧ (rbCopyFailCurrent PStore.empty).live = [0] ∧
+    (rbCopyFailFixed PStore.empty).live = [] := by
+  refine ⟨fun _ => rfl, by decide, by decide⟩
 
 end Sqfs.Witness.C19
 
